@@ -459,3 +459,19 @@ func JoinPath(t *rapid.T, segs []string) string {
 	// slashes; that is fine, the model strips them the same way.
 	return strings.Repeat("/", lead) + strings.Join(segs, "/")
 }
+
+// BigSizes are payload sizes around the usual buffer boundaries.
+var BigSizes = []int{512, 4095, 4096, 4097, 8192, 32769, 65536, 70000}
+
+// Big returns s, or - one time in twelve - s repeated up to one of BigSizes
+// bytes: payloads larger than any buffer an implementation may put in the way.
+func Big(t *rapid.T, s string) string {
+	if rapid.IntRange(0, 11).Draw(t, "big") != 0 {
+		return s
+	}
+	n := BigSizes[rapid.IntRange(0, len(BigSizes)-1).Draw(t, "bigsize")]
+	if s == "" {
+		s = "x"
+	}
+	return strings.Repeat(s, n/len(s)+1)[:n]
+}
